@@ -1,0 +1,199 @@
+//go:build verif
+
+package corebgp
+
+// Thin exported wrappers around unexported codecs and helpers, compiled only with
+// the `verif` build tag. They exist so that an external verification harness can
+// call the real functions in-process. No existing code is changed.
+
+import (
+	"errors"
+	"fmt"
+	"net"
+	"net/netip"
+	"time"
+)
+
+// VerifOpen mirrors openMessage with capability parameters in wire order.
+type VerifOpen struct {
+	Version  uint8
+	ASN      uint16
+	HoldTime uint16
+	BGPID    uint32
+	Params   [][]Capability
+}
+
+func verifFromOpen(o *openMessage) *VerifOpen {
+	v := &VerifOpen{
+		Version:  o.version,
+		ASN:      o.asn,
+		HoldTime: o.holdTime,
+		BGPID:    o.bgpID,
+	}
+	for _, p := range o.optionalParams {
+		c, ok := p.(*capabilityOptionalParam)
+		if ok {
+			v.Params = append(v.Params, c.capabilities)
+		}
+	}
+	return v
+}
+
+func (v *VerifOpen) toOpen() *openMessage {
+	o := &openMessage{
+		version:  v.Version,
+		asn:      v.ASN,
+		holdTime: v.HoldTime,
+		bgpID:    v.BGPID,
+	}
+	for _, p := range v.Params {
+		o.optionalParams = append(o.optionalParams,
+			&capabilityOptionalParam{capabilities: p})
+	}
+	return o
+}
+
+// VerifAsNotificationError reports whether err unwraps to a notificationError
+// and, if so, its notification and direction.
+func VerifAsNotificationError(err error) (*Notification, bool, bool) {
+	var nerr *notificationError
+	if errors.As(err, &nerr) {
+		return nerr.notification, nerr.out, true
+	}
+	return nil, false, false
+}
+
+func VerifPrependHeader(m []byte, t uint8) []byte { return prependHeader(m, t) }
+
+func VerifNotifEncode(n *Notification) ([]byte, error) { return n.encode() }
+
+func VerifNotifDecode(b []byte) (*Notification, error) {
+	n := &Notification{}
+	err := n.decode(b)
+	if err != nil {
+		return nil, err
+	}
+	return n, nil
+}
+
+func VerifOpenDecode(b []byte) (*VerifOpen, []Capability, error) {
+	o := &openMessage{}
+	err := o.decode(b)
+	if err != nil {
+		return nil, nil, err
+	}
+	return verifFromOpen(o), o.getCapabilities(), nil
+}
+
+func VerifOpenValidate(v *VerifOpen, localID, localAS, remoteAS uint32) error {
+	return v.toOpen().validate(localID, localAS, remoteAS)
+}
+
+func VerifOpenEncode(v *VerifOpen) ([]byte, error) { return v.toOpen().encode() }
+
+// VerifOpenBuild is newOpenMessage followed by encode, as in
+// sendOpenAndSetHoldTimer.
+func VerifOpenBuild(asn uint32, holdTime time.Duration, bgpID uint32,
+	caps []Capability) ([]byte, error) {
+	o, err := newOpenMessage(asn, holdTime, bgpID, caps)
+	if err != nil {
+		return nil, err
+	}
+	return o.encode()
+}
+
+func VerifCapEncode(c Capability) []byte { return c.encode() }
+
+func VerifKeepAliveEncode() ([]byte, error) { return keepAliveMessage{}.encode() }
+
+func VerifDecodeCaps(b []byte) ([]Capability, error) {
+	c := &capabilityOptionalParam{}
+	err := c.decode(b)
+	if err != nil {
+		return nil, err
+	}
+	return c.capabilities, nil
+}
+
+// VerifMsg is one message as produced by the reader goroutine.
+type VerifMsg struct {
+	Type   uint8
+	Update []byte
+	Open   *VerifOpen
+	Notif  *Notification
+}
+
+// VerifReadAll runs the real reader goroutine (fsm.read) over conn and collects
+// what it hands to the FSM until the first error.
+func VerifReadAll(conn net.Conn) ([]VerifMsg, error) {
+	f := &fsm{conn: conn}
+	f.startReading()
+	var msgs []VerifMsg
+	for {
+		select {
+		case err := <-f.readerErrCh:
+			<-f.readerDoneCh
+			return msgs, err
+		case m := <-f.readerMsgCh:
+			vm := VerifMsg{Type: m.messageType()}
+			switch m := m.(type) {
+			case *openMessage:
+				vm.Open = verifFromOpen(m)
+			case updateMessage:
+				vm.Update = []byte(m)
+			case *Notification:
+				vm.Notif = m
+			}
+			msgs = append(msgs, vm)
+		}
+	}
+}
+
+func VerifDecodePrefixes(b []byte, ipv6 bool) ([]netip.Prefix, error) {
+	return decodePrefixes(b, ipv6)
+}
+
+func VerifDecodeAddPathPrefixes(b []byte, ipv6 bool) ([]AddPathPrefix, error) {
+	return decodeAddPathPrefixes(b, ipv6)
+}
+
+// VerifBackoff replays a history of damping errors through updateStartupDelay.
+// gaps[k] is the time since the previous error (ignored for k == 0). The
+// startup delay after each error is returned.
+func VerifBackoff(gaps []time.Duration) []time.Duration {
+	p := newPeer(PeerConfig{}, 0, nil, defaultPeerOptions())
+	delays := make([]time.Duration, 0, len(gaps))
+	for _, g := range gaps {
+		if p.lastProtoError != nil {
+			t := p.lastProtoError.Add(-g)
+			p.lastProtoError = &t
+		}
+		p.updateStartupDelay()
+		delays = append(delays, p.startupDelay)
+	}
+	p.startupDelayTimer.Stop()
+	return delays
+}
+
+// VerifHandleError feeds an error, built the way the FSM builds it, to the
+// real peer.handleError of a peer without FSMs and reports whether the peer
+// went into hold-down and with which delay.
+func VerifHandleError(kind string, code, subcode uint8, out bool) (bool, time.Duration) {
+	p := newPeer(PeerConfig{}, 0, nil, defaultPeerOptions())
+	var err error
+	switch kind {
+	case "notif":
+		err = newNotificationError(newNotification(code, subcode, nil), out)
+	case "wrapped":
+		err = fmt.Errorf("reader error: %w",
+			newNotificationError(newNotification(code, subcode, nil), out))
+	default:
+		err = fmt.Errorf("reader error: %w", errors.New("io"))
+	}
+	p.handleError(in, err)
+	p.startupDelayTimer.Stop()
+	return p.inHoldDown, p.startupDelay
+}
+
+// VerifFSMStateName exposes fsmState.String for trace parsing.
+func VerifFSMStateName(s uint8) string { return fsmState(s).String() }
